@@ -52,18 +52,19 @@ fn shape_saturation<T: Scalar>(spec: &Spec, st: &mut Stats, sink: &Sink) {
         let hist: Vec<f64> = (0..total).map(|i| cyc[i % cyc.len()]).collect();
         let r = guard(|| {
             let mut v = build::<T>(spec);
+            // (max slots seen up to the warm-up horizon, empty options at the horizon)
             let mut at_warm = (0usize, 0usize);
             let mut worst: Option<(usize, usize)> = None;
             for (i, x) in hist.iter().enumerate() {
                 v.update(T::of(*x));
                 let _ = v.last();
-                if i + 1 == warm {
-                    at_warm = slots(&format!("{:?}", v));
-                } else if i + 1 > warm {
-                    let s = slots(&format!("{:?}", v));
-                    if s.0 > at_warm.0 + at_warm.1 && worst.is_none() {
-                        worst = Some((i, s.0));
-                    }
+                let s = slots(&format!("{:?}", v));
+                if i + 1 <= warm {
+                    // a bounded buffer may legitimately fluctuate (e.g. a monotonic
+                    // candidate deque): compare against the maximum, not a point
+                    at_warm = (at_warm.0.max(s.0), s.1);
+                } else if s.0 > at_warm.0 + at_warm.1 && worst.is_none() {
+                    worst = Some((i, s.0));
                 }
             }
             (at_warm, worst)
@@ -79,7 +80,7 @@ fn shape_saturation<T: Scalar>(spec: &Spec, st: &mut Stats, sink: &Sink) {
                     "state-grows",
                     T::NAME,
                     &hist[..=i],
-                    format!("the view holds {} scalar slots after {} updates but held {} (+{} empty options) after {} updates, with total window length {}", n, i + 1, aw.0, aw.1, warm, w),
+                    format!("the view holds {} scalar slots after {} updates but never more than {} (+{} empty options) during the first {} updates, with total window length {}", n, i + 1, aw.0, aw.1, warm, w),
                 ));
                 return;
             }
